@@ -233,6 +233,12 @@ func runCheck(cfg checkCfg) int {
 	}
 	sort.Strings(order)
 
+	// stale replay files of this property
+	if old, _ := filepath.Glob(filepath.Join(cfg.VerifDir, "replays", cfg.Prop+"__*")); len(old) > 0 {
+		for _, f := range old {
+			os.Remove(f)
+		}
+	}
 	out := CheckOutput{}
 	discharged := 0
 	var lines []string
@@ -262,7 +268,7 @@ func runCheck(cfg checkCfg) int {
 		var rr *ReplayResult
 		for _, fv := range o.failing {
 			if fv.Result == "sat" && !cfg.NoReplay {
-				rr = Replay(eng, fv, cfg, tmp)
+				rr = replayWithRetries(eng, fv, cfg, tmp, pre)
 				if rr != nil && rr.Confirmed {
 					vc = fv
 					break
